@@ -337,11 +337,11 @@ func genASN1(t *rapid.T) Case {
 }
 
 func TestPropCert(t *testing.T) {
-	kit.Run(t, kit.Spec[Case]{ID: "C20", Name: "cert", Rule: rule, Assumptions: assumptions, Gen: genCert, Check: check, Quick: 20000, Thorough: 200000, Sample: sample})
+	kit.Run(t, kit.Spec[Case]{ID: "C20", Name: "cert", Rule: rule, Assumptions: assumptions, Gen: genCert, Check: check, Quick: 40000, Thorough: 200000, Sample: sample})
 }
 
 func TestPropASN1(t *testing.T) {
-	kit.Run(t, kit.Spec[Case]{ID: "C20", Name: "asn1", Rule: rule, Assumptions: assumptions, Gen: genASN1, Check: check, Quick: 40000, Thorough: 400000, Sample: sample})
+	kit.Run(t, kit.Spec[Case]{ID: "C20", Name: "asn1", Rule: rule, Assumptions: assumptions, Gen: genASN1, Check: check, Quick: 60000, Thorough: 400000, Sample: sample})
 }
 
 func sample(c Case) any {
